@@ -1,17 +1,23 @@
 #!/bin/bash
 # usage: tools/mutest.sh <seeded-dir> <property> [extra check args]
-# applies seeded/<dir>/patch.diff to /repo, runs the quick check, reverts.
+# Tries a seeded change: a scratch worktree of /repo HEAD gets
+# seeded/<dir>/patch.diff, the property's quick check runs against it
+# (VERIF_REPO), the worktree is removed. /repo itself is never touched and the
+# committed evidence is not overwritten (scratch runs write to /tmp).
 d=$1; shift; p=$1; shift
-cd /repo || exit 2
+wt=/tmp/mutwt-$d-$$
+git -C /repo worktree add -q --detach $wt HEAD || exit 2
+cleanup() { git -C /repo worktree remove --force $wt 2>/dev/null; }
+trap cleanup EXIT
+cd $wt
+mkdir -p web/dist; [ -f web/dist/index.html ] || cp -r /repo/web/dist/. web/dist/ 2>/dev/null
 if ! git apply --check /verif/seeded/$d/patch.diff 2>/dev/null; then
-  if ! git apply --3way /verif/seeded/$d/patch.diff 2>/dev/null; then echo "PATCH-DOES-NOT-APPLY $d"; git checkout -- . ; exit 3; fi
-  git reset -q
+  if ! git apply --3way /verif/seeded/$d/patch.diff 2>/dev/null; then echo "PATCH-DOES-NOT-APPLY $d"; exit 3; fi
 else
   git apply /verif/seeded/$d/patch.diff
 fi
 cd /verif
-timeout 3000 bin/verif check $p --tier quick "$@" > /tmp/mutest-$d-$p.log 2>&1
+VERIF_REPO=$wt timeout 3000 bin/verif check $p --tier quick "$@" > /tmp/mutest-$d-$p.log 2>&1
 rc=$?
-git -C /repo checkout -- .
 echo "$d $p exit=$rc $(grep -c '^VIOLATION' /tmp/mutest-$d-$p.log) violation lines; $(grep '^VIOLATION' -A1 /tmp/mutest-$d-$p.log | grep harness | head -3 | cut -c1-160)"
 grep -h "INCONCLUSIVE" /tmp/mutest-$d-$p.log | head -3 | cut -c1-300
